@@ -909,7 +909,10 @@ def _ply_binary(elements, file_obj):
         elem_pop = []
         for element_key, element in elements.items():
             props = element["properties"]
-            prior_data = ""
+            # the size in bytes of the properties before the current one
+            # as a running sum: parsing the dtype of all prior properties
+            # again for every list is quadratic in their number
+            offset = 0
             for k, dtype in props.items():
                 prop_pop = []
                 if "$LIST" in dtype:
@@ -917,10 +920,6 @@ def _ply_binary(elements, file_obj):
                     # the list length (single value), and the list data (multiple)
                     # here we are only reading the single value for list length
                     field_dtype = np.dtype(dtype.split(",")[0])
-                    if len(prior_data) == 0:
-                        offset = 0
-                    else:
-                        offset = np.dtype(prior_data).itemsize
                     file_obj.seek(p_current + offset)
                     blob = file_obj.read(field_dtype.itemsize)
                     if len(blob) == 0:
@@ -929,7 +928,7 @@ def _ply_binary(elements, file_obj):
                         break
                     size = np.frombuffer(blob, dtype=field_dtype)[0]
                     props[k] = props[k].replace("$LIST", str(size))
-                prior_data += props[k] + ","
+                offset += np.dtype(props[k]).itemsize
             if len(prop_pop) > 0:
                 # if a property was empty remove it
                 for pop in prop_pop:
